@@ -920,6 +920,12 @@ def check_hint(tr):
     return ["chunk iterator: %s (line %d)" % (" ".join(l.split()[1:]), i) for i, l in enumerate(tr.lines) if " hint-mismatch " in l]
 
 
+def check_view_hint(tr):
+    """what `values()` / `ids_and_values()` announce through `size_hint` holds for what the view then yields, whoever else pulls
+    meanwhile (the harness logs a `vhint-broken` line otherwise; std's default `(0, None)` is never wrong)"""
+    return ["sequential view: %s (line %d)" % (" ".join(l.split()[1:]), i) for i, l in enumerate(tr.lines) if " vhint-broken " in l]
+
+
 def check_wrapper_nth(tr):
     """single-threaded cases with `values().nth(k)` / `ids_and_values().nth(k)`: std's default `nth` is k+1 calls of the
     wrapper's `next` -- k single pulls discarded, the next one returned, stopping at the first end; a sequential cursor
@@ -989,14 +995,14 @@ def check_C19(tr):
 
 
 def _with_nth(f):
-    return lambda tr: f(tr) + check_wrapper_nth(tr)
+    return lambda tr: f(tr) + check_wrapper_nth(tr) + check_view_hint(tr)
 
 
 MONITORS = {
     "C19": check_C19,
     "C01": _with_nth(check_C01), "C02": _with_nth(check_C02), "C03": (lambda tr: check_C03(tr) + check_hint(tr)), "C04": _with_nth(check_C04), "C05": check_C05,
     "C06": check_C06, "C07": check_C07, "C08": check_C08, "C09": check_C09, "C10": check_C10,
-    "C11": check_C11, "C12": check_C12, "C15": check_C15, "C16": check_C16, "C18": check_C18,
+    "C11": (lambda tr: check_C11(tr) + check_view_hint(tr)), "C12": check_C12, "C15": check_C15, "C16": check_C16, "C18": check_C18,
     # std's contract of `ExactSizeIterator` (the chunk value iterators implement it): `size_hint` is exact
     "C17": check_hint,
 }
